@@ -1,6 +1,7 @@
 mod interp;
 mod prog;
 mod rec;
+mod sample;
 mod serial;
 
 use prog::Prog;
@@ -24,7 +25,7 @@ fn read_progs(path: &str) -> Vec<Prog> {
         .collect()
 }
 
-fn config_for(p: &Prog) -> Config {
+pub fn config_for(p: &Prog) -> Config {
     let mut c = Config::new();
     c.stack_size = 0x8000;
     c.failure_persistence = FailurePersistence::None;
@@ -39,7 +40,7 @@ fn config_for(p: &Prog) -> Config {
     c
 }
 
-fn payload_msg(e: &Box<dyn std::any::Any + Send>) -> String {
+pub fn payload_msg(e: &Box<dyn std::any::Any + Send>) -> String {
     if let Some(s) = e.downcast_ref::<String>() {
         s.clone()
     } else if let Some(s) = e.downcast_ref::<&str>() {
@@ -67,7 +68,7 @@ fn parse_deadlock(msg: &str) -> Vec<i64> {
     out
 }
 
-fn end_event_for_panic(msg: &str) -> Value {
+pub fn end_event_for_panic(msg: &str) -> Value {
     if msg.starts_with("deadlock! blocked tasks") {
         json!({"e":"end","v":"deadlock","bl":parse_deadlock(msg)})
     } else if msg.starts_with("exceeded max_steps bound") {
@@ -236,6 +237,24 @@ fn cmd_one(args: &[String]) {
         interp::LOG_CLOCK.store(true, std::sync::atomic::Ordering::Relaxed);
     }
     let p = &progs[idx];
+    if args.iter().any(|a| a == "--slen") {
+        interp::LOG_SLEN.store(true, std::sync::atomic::Ordering::Relaxed);
+    }
+    if arg(args, "--mode") == Some("sample") {
+        let iters: usize = arg(args, "--iters").unwrap_or("50").parse().unwrap();
+        let seed: u64 = arg(args, "--seed").unwrap_or("1").parse().unwrap();
+        let (execs, meta) = sample::sample_program(p, iters, seed.wrapping_mul(7919).wrapping_add(p.id as u64), out, idx);
+        let mut trie = Trie::new();
+        for ex in &execs {
+            trie.add(ex);
+        }
+        let mut meta = meta;
+        meta["nodes"] = json!(trie.evs.len());
+        meta["leaves"] = json!(trie.leaves);
+        write_trie(&trie, &format!("{out}/p{idx}.trie"));
+        std::fs::write(format!("{out}/p{idx}.meta"), meta.to_string()).unwrap();
+        return;
+    }
     let (trie, meta) = enumerate(p, cap);
     write_trie(&trie, &format!("{out}/p{idx}.trie"));
     std::fs::write(format!("{out}/p{idx}.meta"), meta.to_string()).unwrap();
@@ -268,6 +287,16 @@ fn cmd_enum(args: &[String]) {
             c.arg("one").arg("--progs").arg(progs_path).arg("--idx").arg(next.to_string()).arg("--out").arg(&out).arg("--cap").arg(&cap);
             if clock {
                 c.arg("--clock");
+            }
+            for flag in ["--slen"] {
+                if args.iter().any(|a| a == flag) {
+                    c.arg(flag);
+                }
+            }
+            for opt in ["--mode", "--iters", "--seed"] {
+                if let Some(v) = arg(args, opt) {
+                    c.arg(opt).arg(v);
+                }
             }
             let errf = std::fs::File::create(format!("{out}/p{next}.stderr")).unwrap();
             c.stderr(errf).stdout(std::process::Stdio::null());
